@@ -85,6 +85,9 @@ def expr_text(e) -> str:
         op, args = e[1], e[2]
         if op in INFIX and len(args) == 2:
             return "(" + expr_text(args[0]) + " " + op + " " + expr_text(args[1]) + ")"
+        if op in ("and", "or") and len(args) > 2:
+            # an n-ary chain `a and b and c`: the parser builds ONE expression with n arguments
+            return "(" + (" " + op + " ").join(expr_text(a) for a in args) + ")"
         if op == "neg":
             return "(-" + expr_text(args[0]) + ")"
         if op == "not":
@@ -113,7 +116,7 @@ def expr_obj(e):
         return er.DictTerm({a: b for a, b in e[1]})
     if k == "call":
         op, args = e[1], e[2]
-        if op in ("and", "or") and len(args) == 2:
+        if op in ("and", "or") and len(args) >= 2:
             return er.kop_expr(op, [expr_obj(a) for a in args], inline=True, method=False)
         if op in INFIX_METHOD and len(args) == 2:
             return getattr(expr_obj(args[0]), INFIX_METHOD[op])(expr_obj(args[1]))
